@@ -1,5 +1,5 @@
 # replay of a bounded stand-in violation: re-run native/c01_backends.py
 import sys
-print("Coherent() | q[0] of 2 on fock: raised ValueError: einstein sum subscripts string included output subscript 'd' which never appeared in an input")
+print("MeasureHeterodyne(0.2, -0.3) | q[1] of 2 on gaussian: ('quad', 0, 0.0) = [0.0754, 0.7256], the documented action gives [0.0661, 0.7256]")
 print('REPLAY-VIOLATION')
 sys.exit(1)
